@@ -192,7 +192,10 @@ def run(case, ctx):
     ops = []
     count_ops(tree, ops)
     ts = tree_str(tree)
-    leaf_data = [rng.integers(-2, 3, size=((N,) * D if kind == "filter" else sp) + (D,) * k).astype(np.float32) for kind, k, p in g_.leaves]
+    # filter leaves are plain geometric images: one case in three gives them unequal odd sides (1, 3, 5 - longer than the
+    # image on some axes), which a g in B_d carries to other axes
+    fsh = (N,) * D if case["i"] % 3 else tuple(int(v) for v in rng.choice([1, 3, 3, 5], size=D))
+    leaf_data = [rng.integers(-2, 3, size=(fsh if kind == "filter" else sp) + (D,) * k).astype(np.float32) for kind, k, p in g_.leaves]
     mk = lambda arrs, tor=torus: [geom.GeometricImage(jnp.asarray(a), p, D, tor) for a, (_, k, p) in zip(arrs, g_.leaves)]
     viols, evals = [], 0
     try:
